@@ -1,10 +1,12 @@
 /-
-C20 — property theorems.  All statements quantify over EVERY mudlib configuration `cfg` (root uid, backbone uid or
-none), EVERY master policy `pol` (arbitrary functions of the step number and the apply's arguments: approve, refuse,
+C20 — property theorems.  All statements quantify over EVERY mudlib configuration `cfg` (root uid or a master without
+get_root_uid(), backbone uid or none, master with / without valid_bind(), simul_efun object as actor or not), EVERY master policy `pol` (arbitrary functions of the step number and the apply's arguments: approve, refuse,
 odd values, runtime errors, switching at any time) and EVERY history `hist` of (actor, operation) pairs
-(load / clone / seteuid(string|int) / export_uid / destruct / reload_object by the master or any other object,
-existing or not), EVERY assignment of create() scripts to file names (`pol.script`: ops an object under construction
-performs from inside its create(), nested to any depth), EVERY compile_object policy `pol.co` (virtual objects) and EVERY fuel (nesting bound of the model).
+(load / clone / seteuid(string|int) / export_uid / destruct / reload_object / function-pointer evaluation / bind() by the
+master, the simul_efun object or any other object, existing or not), EVERY assignment of create() scripts to file names (`pol.script`: ops an object under construction
+performs from inside its create(), nested to any depth), EVERY compile_object policy `pol.co` (virtual objects), EVERY
+valid_bind policy `pol.vb`, EVERY choice of creator_file calls in which the master drops its own euid (`pol.cfDrop`), EVERY sequence
+of get_root_uid() answers (`pol.root`) and EVERY fuel (nesting bound of the model).
 `events cfg pol fuel hist` is the model's event trace (one record per segment between two uid snapshots); the clauses are those of the oracle
 `judgeEv` (NV/C20/Spec.lean), which is also run on every trace of the real driver.
 -/
@@ -79,8 +81,8 @@ theorem judgeFrom_nil {bb : Option Name} :
     simp [judgeFrom, judgeStep_nil h1, ih _ _ h2]
 
 /-- **Top theorem.**  The specification oracle accepts the event trace of every history under every master policy:
-    no clause of property C20 (euid, uid, creation, no-euid-no-creation, export preconditions, master asked, every
-    object known and with a uid, no crash) is ever violated by the model. -/
+    no clause of property C20 (euid, uid, creation, no-euid-no-creation, export preconditions, master asked, bind only
+    with the master's valid_bind approval, every object known and with a uid, no crash) is ever violated by the model. -/
 theorem model_satisfies_spec (cfg : Cfg) (pol : Policy) (fuel : Nat) (hist : List (Oid × Op)) :
     judgeEv cfg (events cfg pol fuel hist) = [] :=
   judgeFrom_nil _ _ 0 (events_ok cfg pol fuel hist)
